@@ -832,6 +832,14 @@ def enum_corpus(tier, seed):
         e.discr_text, e.discr_text_valid = {f"V{i}": f"{d}{rp}" for i, d in enumerate(ds) if i != 1}, True
         e.tag = f"u{bits} with #[repr({rp})] and discriminants written with the {rp} suffix"
         Es.append(e)
+    # the whole declaration stamped out by macro_rules!: enum name, base type, exhaustive value and variant names as
+    # fragments; enum-level doc comments that mention trait names and the word exhaustive
+    for (bits, ds, ex, cfg) in ((2, [0, 1, 2, 3], "true", None), (3, [0, 5, 7], "false", None), (8, [1, 200], None, None), (2, [0, 1, 3], "conditional", [None, "on", "off"]), (1, [0, 1], "true", None)):
+        e = EnumDef("E", bits, [(["Idle", "Busy", "Done", "Fault"][i], d, (cfg[i] if cfg else None)) for i, d in enumerate(ds)], ex)
+        e.macro_idents = True
+        e.enum_doc = "Debug state (non-exhaustive list; Copy of the PartialEq Default)"
+        e.tag = f"u{bits} enum stamped out by macro_rules! (name, base type, exhaustive={ex}, variant names as fragments), documented"
+        Es.append(e)
     # variant and type names that generated code might itself want to use unqualified
     for (nm, bits, spec_, ex) in (("E", 2, [("Ok", 0, None), ("Err", 1, None), ("None", 3, None)], None), ("E", 1, [("Some", 1, None), ("None", 0, None)], "true"),
                                   ("E", 3, [("Self_", 0, None), ("Result", 1, None), ("Option", 2, None), ("Default", 5, None), ("MAX", 7, None)], "false"),
